@@ -95,3 +95,22 @@ def localise(bp, fails):
         except Exception:
             continue
     return bp
+
+
+class Timeout(Exception):
+    """A single call exceeded its budget: the case is inconclusive, never a violation."""
+
+
+def with_timeout(seconds, thunk):
+    """Run thunk() under a SIGALRM budget (main thread of a worker process)."""
+    import signal
+
+    def handler(signum, frame):
+        raise Timeout()
+    old = signal.signal(signal.SIGALRM, handler)
+    signal.alarm(seconds)
+    try:
+        return thunk()
+    finally:
+        signal.alarm(0)
+        signal.signal(signal.SIGALRM, old)
